@@ -7,6 +7,7 @@
 -/
 import Gzx.Ref.QR
 import Gzx.Proofs.QRZigzag
+import Gzx.Proofs.QRPlacement
 import Gzx.Proofs.QRCount0
 import Gzx.Proofs.QRCount1
 import Gzx.Proofs.QRCount2
@@ -163,6 +164,19 @@ theorem std_zigzag_count (v : Nat) (h1 : 1 ≤ v) (h40 : v ≤ 40) :
   rw [zigzag_length, dataCount_all v h1 h40]
   unfold totalCodewords remainderBits
   omega
+
+/-- `place_spec`: in the reference symbol the `i`-th module of the placement order shows bit `i` of
+    the codeword stream (codeword bits msb first, then zero remainder bits) XOR the mask condition
+    at that module; function modules do not depend on the data.  (Encoder half of C01's
+    `place_read_inv`.) -/
+theorem place_spec (v : Nat) (ec : EC) (mask : Nat) (cw : List Nat)
+    (hlen : (bitsOfBytes cw).length ≤ (zigzag v).length) :
+    (∀ i (hi : i < (zigzag v).length),
+      moduleAt v ec mask cw ((zigzag v)[i]).1 ((zigzag v)[i]).2 =
+        ((streamBits v cw)[i]'(by rw [streamBits_length v cw hlen]; exact hi)
+          != maskBit mask ((zigzag v)[i]).1 ((zigzag v)[i]).2)) ∧
+    (∀ x y, isFunction v x y = true → moduleAt v ec mask cw x y = functionModule v ec mask x y) :=
+  ⟨fun i hi => moduleAt_data v ec mask cw hlen i hi, fun x y h => moduleAt_function v ec mask cw x y h⟩
 
 /-! ### masks -/
 
